@@ -81,7 +81,29 @@ def _worker(unit):
     finally:
         signal.alarm(0)
     res["fails"] = res.get("fails", [])[:MAX_FAILS_PER_UNIT]
+    for f in res["fails"]:
+        f.setdefault("unit", unit)
     return res
+
+
+def _fresh_unit_run(unit):
+    """run one work unit in a freshly forked process (no state left over from other units)"""
+    ctx = mp.get_context("fork")
+    with ctx.Pool(1, maxtasksperchild=1) as p:
+        return p.apply(_worker, (unit,))
+
+
+def _replay_case(case):
+    try:
+        return _MODULE.replay(case)
+    except Exception as e:
+        return [dict(what="replay raised " + repr(e))]
+
+
+def _fresh_case_replay(case):
+    ctx = mp.get_context("fork")
+    with ctx.Pool(1, maxtasksperchild=1) as p:
+        return p.apply(_replay_case, (case,))
 
 
 def jsonable(x):
@@ -125,14 +147,12 @@ def run(module, tier, replay_path=None):
     extra = Counter()
     fails = []
     samples = []
-    chunks = max(1, min(64, n_units // (workers * 8) or 1))
-    if workers > 1:
-        ctx = mp.get_context("fork")
-        pool = ctx.Pool(workers)
-        it = pool.imap(_worker, units, chunksize=chunks)
-    else:
-        pool = None
-        it = map(_worker, units)
+    # every work unit runs in a freshly forked process (maxtasksperchild=1, chunksize=1): state that the
+    # implementation keeps across calls (module-level caches, mutable defaults) can then only come from
+    # the unit's own history, which makes every failure reproducible from its unit alone
+    ctx = mp.get_context("fork")
+    pool = ctx.Pool(workers, maxtasksperchild=1)
+    it = pool.imap(_worker, units, chunksize=1)
     try:
         for res in it:
             agg["evals"] += res.get("evals", 0)
@@ -159,19 +179,29 @@ def run(module, tier, replay_path=None):
             continue
         ok = 0
         for _ in range(2):
-            try:
-                again = module.replay(case)
-            except Exception as e:
-                again = [dict(what="replay raised " + repr(e))]
-            if again:
+            if _fresh_case_replay(case):
                 ok += 1
-        if ok == 0:
-            print(f"MACHINERY-ERROR property={pid}: failure did not reproduce: {f.get('what')}")
-            print(json.dumps(jsonable(case))[:2000])
-            return 2
-        if ok == 1:
-            print(f"MACHINERY-ERROR property={pid}: failure reproduces only sometimes: {f.get('what')}")
-            return 2
+        if ok < 2:
+            # The single case does not reproduce on its own. That happens when the implementation keeps
+            # state across calls (module-level caches, mutable defaults): then the failing HISTORY is the
+            # work unit executed from a fresh process. Re-run the whole unit in two freshly forked
+            # processes; only if the same failure appears in both is it reported (replay = the unit).
+            unit = f.get("unit")
+            hits = 0
+            for _ in range(2):
+                try:
+                    again = _fresh_unit_run(unit) if unit is not None else {}
+                except Exception:
+                    again = {}
+                if any(g.get("what") == f.get("what") for g in again.get("fails", [])):
+                    hits += 1
+            if hits < 2:
+                print(f"MACHINERY-ERROR property={pid}: failure did not reproduce (case {ok}/2, unit {hits}/2): {f.get('what')}")
+                print(json.dumps(jsonable(case))[:2000])
+                return 2
+            f = dict(f)
+            f["case"] = {"unit": unit, "whole_unit": True, "first_failing_case": case}
+            f["what"] = "[needs the history of its work unit: state kept across calls] " + str(f.get("what"))
         confirmed.append(f)
     wall = time.time() - t0
     # ---- evidence -----------------------------------------------------------------------
@@ -222,7 +252,7 @@ def run(module, tier, replay_path=None):
         return 0
     seen_classes = set()
     written = 0
-    for f in confirmed + unknown[len(confirmed) :]:
+    for f in confirmed + unknown[8:]:
         cls = json.dumps(jsonable(f.get("tags", {})), sort_keys=True)
         if cls in seen_classes:
             continue
